@@ -259,52 +259,64 @@ instance (g : Geo) : Decidable (Fresh g) := by unfold Fresh; infer_instance
 
 /-! ### `setup_block_connection_name_index` -/
 
-/-- vertical connection names of one layer. `first` is `ilay == 0`; `above` is
+/-- `(applyMap m a, applyMap m b)` -/
+def mapPair (m : BlockMap) (p : Str × Str) : Str × Str := (applyMap m p.1, applyMap m p.2)
+
+/-- body of the vertical loop of `setup_block_connection_name_index` for one column:
+    the announced pair, or `none` for `continue`. `first` is `ilay == 0`; `above` is
     `layerlist[ilay]`, the layer just above `lay`. -/
+def vertName (g : Geo) (first : Bool) (above lay : Layer) (col : Column) : Except Exc (Option (Str × Str)) :=
+  match blockName g.convention lay.name col.name with
+  | .error e => .error e
+  | .ok this =>
+    if first ∨ col.surface ≤ lay.top then
+      if g.atmType = 0 then
+        match g.blockNames.head? with
+        | some a => .ok (some (this, a))
+        | none => .error .indexError
+      else if g.atmType = 1 then
+        match blockName g.convention g.layer0.name col.name with
+        | .ok a => .ok (some (this, a))
+        | .error e => .error e
+      else .ok none
+    else
+      match blockName g.convention above.name col.name with
+      | .ok a => .ok (some (this, a))
+      | .error e => .error e
+
+/-- vertical connection names of one layer -/
 def vertNames (g : Geo) (first : Bool) (above lay : Layer) : List Column → Except Exc (List (Str × Str))
   | [] => .ok []
   | col :: rest =>
-    match blockName g.convention lay.name col.name with
+    match vertName g first above lay col with
     | .error e => .error e
-    | .ok this =>
-      let here : Except Exc (List (Str × Str)) :=
-        if first ∨ col.surface ≤ lay.top then
-          if g.atmType = 0 then
-            match g.blockNames.head? with
-            | some a => .ok [(this, a)]
-            | none => .error .indexError
-          else if g.atmType = 1 then
-            match blockName g.convention g.layer0.name col.name with
-            | .ok a => .ok [(this, a)]
-            | .error e => .error e
-          else .ok []
-        else
-          match blockName g.convention above.name col.name with
-          | .ok a => .ok [(this, a)]
-          | .error e => .error e
-      match here with
+    | .ok o =>
+      match vertNames g first above lay rest with
       | .error e => .error e
-      | .ok h =>
-        match vertNames g first above lay rest with
-        | .error e => .error e
-        | .ok r => .ok (h ++ r)
+      | .ok r => .ok (o.toList ++ r)
 
 /-- `[con for con in connectionlist if set(con.column).issubset(layercolset)]` -/
 def layerConns (g : Geo) (lcols : List Column) : List Conn :=
   g.conns.filter (fun k => lcols.contains k.col0 && lcols.contains k.col1)
 
+/-- `tuple([block_name(lay.name, concol.name) for concol in con.column])` -/
+def horizName (conv : Nat) (lay : Layer) (k : Conn) : Except Exc (Str × Str) :=
+  match blockName conv lay.name k.col0.name with
+  | .error e => .error e
+  | .ok a =>
+    match blockName conv lay.name k.col1.name with
+    | .error e => .error e
+    | .ok b => .ok (a, b)
+
 def horizNames (conv : Nat) (lay : Layer) : List Conn → Except Exc (List (Str × Str))
   | [] => .ok []
   | k :: rest =>
-    match blockName conv lay.name k.col0.name with
+    match horizName conv lay k with
     | .error e => .error e
-    | .ok a =>
-      match blockName conv lay.name k.col1.name with
+    | .ok p =>
+      match horizNames conv lay rest with
       | .error e => .error e
-      | .ok b =>
-        match horizNames conv lay rest with
-        | .error e => .error e
-        | .ok r => .ok ((a, b) :: r)
+      | .ok r => .ok (p :: r)
 
 def connNamesFrom (g : Geo) (first : Bool) (above : Layer) : List Layer → Except Exc (List (Str × Str))
   | [] => .ok []
@@ -397,7 +409,7 @@ def TConn.names (c : TConn) : Str × Str := (c.b0, c.b1)
 structure Grid where
   blocks : List Block
   conns : List TConn
-  deriving Repr, Inhabited
+  deriving DecidableEq, Repr, Inhabited
 
 /-- `add_block`: a block of the same name is replaced in place, else appended -/
 def addBlock (bs : List Block) (b : Block) : List Block :=
@@ -479,52 +491,58 @@ def centreZ (b : Block) : Except Exc Rat :=
   | some c => .ok c.z
   | none => .error .typeError
 
-/-- `add_vertical_layer_connections`. `first` is `layerlist.index(lay) == 1`;
-    `above` is `layerlist[ilayer - 1]`. -/
+/-- body of the loop of `add_vertical_layer_connections` for one column: the connection
+    built, or `none` for `continue`. `first` is `layerlist.index(lay) == 1`; `above` is
+    `layerlist[ilayer - 1]`. -/
+def vertConn (g : Geo) (m : BlockMap) (bs : List Block) (first : Bool) (above lay : Layer)
+    (col : Column) : Except Exc (Option TConn) :=
+  match blockName g.convention lay.name col.name m with
+  | .error e => .error e
+  | .ok thisName =>
+  match findBlock bs thisName with
+  | .error e => .error e
+  | .ok thisblk =>
+    if first ∨ col.surface ≤ lay.top then
+      match centreZ thisblk with
+      | .error e => .error e
+      | .ok cz =>
+        let belowdist := col.surface - cz
+        if g.atmType = 0 then
+          match bs.head? with
+          | none => .error .indexError
+          | some ab =>
+            .ok (some ⟨thisblk.name, ab.name, 3, .exact belowdist, .exact g.atmConn, .exact col.area, .exact g.tilt.z⟩)
+        else if g.atmType = 1 then
+          match blockName g.convention g.layer0.name col.name m with
+          | .error e => .error e
+          | .ok an =>
+          match findBlock bs an with
+          | .error e => .error e
+          | .ok ab =>
+            .ok (some ⟨thisblk.name, ab.name, 3, .exact belowdist, .exact g.atmConn, .exact col.area, .exact g.tilt.z⟩)
+        else .ok none
+    else
+      match blockName g.convention above.name col.name m with
+      | .error e => .error e
+      | .ok an =>
+      match findBlock bs an with
+      | .error e => .error e
+      | .ok ab =>
+      match centreZ ab with
+      | .error e => .error e
+      | .ok az =>
+        .ok (some ⟨thisblk.name, ab.name, 3, .exact (lay.top - lay.centre), .exact (az - above.bottom),
+                   .exact col.area, .exact g.tilt.z⟩)
+
+/-- `add_vertical_layer_connections` -/
 def addVertical (g : Geo) (m : BlockMap) (bs : List Block) (first : Bool) (above lay : Layer)
     (cs : List TConn) : List Column → Except Exc (List TConn)
   | [] => .ok cs
   | col :: rest =>
-    match blockName g.convention lay.name col.name m with
+    match vertConn g m bs first above lay col with
     | .error e => .error e
-    | .ok thisName =>
-    match findBlock bs thisName with
-    | .error e => .error e
-    | .ok thisblk =>
-      if first ∨ col.surface ≤ lay.top then
-        match centreZ thisblk with
-        | .error e => .error e
-        | .ok cz =>
-          let belowdist := col.surface - cz
-          if g.atmType = 0 then
-            match bs.head? with
-            | none => .error .indexError
-            | some ab =>
-              addVertical g m bs first above lay
-                (addConn cs ⟨thisblk.name, ab.name, 3, .exact belowdist, .exact g.atmConn, .exact col.area, .exact g.tilt.z⟩) rest
-          else if g.atmType = 1 then
-            match blockName g.convention g.layer0.name col.name m with
-            | .error e => .error e
-            | .ok an =>
-            match findBlock bs an with
-            | .error e => .error e
-            | .ok ab =>
-              addVertical g m bs first above lay
-                (addConn cs ⟨thisblk.name, ab.name, 3, .exact belowdist, .exact g.atmConn, .exact col.area, .exact g.tilt.z⟩) rest
-          else addVertical g m bs first above lay cs rest
-      else
-        match blockName g.convention above.name col.name m with
-        | .error e => .error e
-        | .ok an =>
-        match findBlock bs an with
-        | .error e => .error e
-        | .ok ab =>
-        match centreZ ab with
-        | .error e => .error e
-        | .ok az =>
-          addVertical g m bs first above lay
-            (addConn cs ⟨thisblk.name, ab.name, 3, .exact (lay.top - lay.centre), .exact (az - above.bottom),
-                        .exact col.area, .exact g.tilt.z⟩) rest
+    | .ok none => addVertical g m bs first above lay cs rest
+    | .ok (some c) => addVertical g m bs first above lay (addConn cs c) rest
 
 def absRat (q : Rat) : Rat := if q < 0 then -q else q
 
@@ -539,35 +557,40 @@ def centre3 (b : Block) : Except Exc P3 :=
   | some c => .ok c
   | none => .error .typeError
 
+/-- body of the loop of `add_horizontal_layer_connections` for one geometry connection -/
+def horizConn (g : Geo) (m : BlockMap) (bs : List Block) (lay : Layer) (k : Conn) : Except Exc TConn :=
+  match blockName g.convention lay.name k.col0.name m with
+  | .error e => .error e
+  | .ok n0 =>
+  match findBlock bs n0 with
+  | .error e => .error e
+  | .ok b0 =>
+  match blockName g.convention lay.name k.col1.name m with
+  | .error e => .error e
+  | .ok n1 =>
+  match findBlock bs n1 with
+  | .error e => .error e
+  | .ok b1 =>
+  match connectionParams g k lay with
+  | .error e => .error e
+  | .ok (d0, d1, area) =>
+  match centre3 b1 with
+  | .error e => .error e
+  | .ok c1 =>
+  match centre3 b0 with
+  | .error e => .error e
+  | .ok c0 =>
+    let d := P3.sub c1 c0
+    .ok ⟨b0.name, b1.name, permDirection g.rot d, d0, d1, area, ⟨P3.dot d g.tilt, 1 / P3.normSq d⟩⟩
+
 /-- `add_horizontal_layer_connections` over the filtered connection list -/
 def addHorizontal (g : Geo) (m : BlockMap) (bs : List Block) (lay : Layer)
     (cs : List TConn) : List Conn → Except Exc (List TConn)
   | [] => .ok cs
   | k :: rest =>
-    match blockName g.convention lay.name k.col0.name m with
+    match horizConn g m bs lay k with
     | .error e => .error e
-    | .ok n0 =>
-    match findBlock bs n0 with
-    | .error e => .error e
-    | .ok b0 =>
-    match blockName g.convention lay.name k.col1.name m with
-    | .error e => .error e
-    | .ok n1 =>
-    match findBlock bs n1 with
-    | .error e => .error e
-    | .ok b1 =>
-    match connectionParams g k lay with
-    | .error e => .error e
-    | .ok (d0, d1, area) =>
-    match centre3 b1 with
-    | .error e => .error e
-    | .ok c1 =>
-    match centre3 b0 with
-    | .error e => .error e
-    | .ok c0 =>
-      let d := P3.sub c1 c0
-      addHorizontal g m bs lay
-        (addConn cs ⟨b0.name, b1.name, permDirection g.rot d, d0, d1, area, ⟨P3.dot d g.tilt, 1 / P3.normSq d⟩⟩) rest
+    | .ok c => addHorizontal g m bs lay (addConn cs c) rest
 
 /-- `add_connections`, over `layerlist[1:]` -/
 def addConnsFrom (g : Geo) (m : BlockMap) (bs : List Block) (first : Bool) (above : Layer)
@@ -591,14 +614,76 @@ def fromgeo (g : Geo) (m : BlockMap := []) : Except Exc Grid :=
     | .error e => .error e
     | .ok cs => .ok ⟨bs, cs⟩
 
+/-! ### well-formedness predicates (theorem hypotheses; decidable, evaluated by the driver on
+    every explored case) and specification-side sums -/
+
+/-- layer tops chain downwards from `t`, every layer has positive thickness
+    (`identify_layer_tops`) -/
+def chainOk : Rat → List Layer → Bool
+  | _, [] => true
+  | t, l :: ls => decide (l.top = t) && decide (l.bottom < l.top) && chainOk l.bottom ls
+
+/-- the layer structure a geometry built by the library has: the atmosphere layer is flat,
+    tops chain, layer names are distinct (they are dict keys) -/
+def LayersWF (g : Geo) : Prop :=
+  g.layer0.top = g.layer0.bottom ∧ chainOk g.layer0.bottom g.layers = true ∧
+  (g.layerlist.map (·.name)).Nodup
+
+instance (g : Geo) : Decidable (LayersWF g) := by unfold LayersWF; infer_instance
+
+/-- bottom of the lowest layer -/
+def lastBottom : Rat → List Layer → Rat
+  | t, [] => t
+  | _, l :: ls => lastBottom l.bottom ls
+
+def lowestBottom (g : Geo) : Rat := lastBottom g.layer0.bottom g.layers
+
+/-- the underground layers in which column `col` has a block -/
+def colLayers (g : Geo) (col : Column) : List Layer :=
+  g.layers.filter (fun l => decide (l.bottom < col.surface))
+
+/-- sum of the volumes of the blocks of one column -/
+def columnVolume (g : Geo) (col : Column) : Rat :=
+  ((colLayers g col).map (fun l => (blockVolume g l col).getD 0)).sum
+
+/-- sum of the volumes of all announced underground blocks, layer by layer -/
+def totalVolume (g : Geo) : Rat :=
+  (g.layers.map (fun l => ((layerCols g l).map (fun c => (blockVolume g l c).getD 0)).sum)).sum
+
+/-- top elevation of the block of layer `lay` in column `col`, as the property states it:
+    the column surface in the column's top block (the first underground layer, or the layer
+    the surface cuts), the layer top otherwise -/
+def blockTop (g : Geo) (lay : Layer) (col : Column) : Rat :=
+  if g.layers.head? = some lay ∨ col.surface < lay.top then col.surface else lay.top
+
+/-- every (layer, column) name parses back to its layer and column (`geo.layer[layer_name(n)]`,
+    `geo.column[column_name(n)]`) -/
+def parseOk (g : Geo) : Bool :=
+  g.layers.all fun lay => g.columns.all fun col =>
+    match blockName g.convention lay.name col.name with
+    | .ok nm => decide (findLayer g (layerName g.convention nm) = .ok lay) &&
+                decide (findColumn g (columnName g.convention nm) = .ok col)
+    | .error _ => false
+
 /-! ### `tilt_vector` -/
 
-/-- exact square root of a rational, when it has one -/
+/-- Newton iteration for the integer square root, structurally recursive on the fuel -/
+def isqrtGo (n : Nat) : Nat → Nat → Nat
+  | 0, x => x
+  | fuel + 1, x =>
+    let y := (x + n / x) / 2
+    if y < x then isqrtGo n fuel y else x
+
+/-- integer square root candidate (checked by squaring wherever it is used) -/
+def isqrt (n : Nat) : Nat := if n = 0 then 0 else isqrtGo n 64 (2 ^ (n.log2 / 2 + 1))
+
+/-- exact square root of a rational, when it has one (sound by construction: the candidate
+    is squared and compared) -/
 def ratSqrt? (q : Rat) : Option Rat :=
   if q < 0 then none else
     let n := q.num.toNat
-    let sn := Nat.sqrt n
-    let sd := Nat.sqrt q.den
+    let sn := isqrt n
+    let sd := isqrt q.den
     if sn * sn = n ∧ sd * sd = q.den then some (mkRat sn sd) else none
 
 /-- `sqrt(1. - min(x*x, 1.))` -/
